@@ -39,6 +39,7 @@ SEEDS = [
     ('svg', [b'<svg>', b'<path d="', b'M10 10', b'L20.0 20', b'a1 1 0 0110 10', b'z', b'"', b' fill="#ff0000"', b'/>', b'</svg>']),
     ('xml', [b'<?xml version="1.0"?>', b'<a b="c&#38;">', b' x ', b'<![CDATA[y]]>', b'<!--c-->', b'</a>']),
     ('num', [b'-', b'012', b'.', b'3400', b'e', b'+', b'05']),
+    ('num', [b'.', b'000', b'12', b'e', b'-', b'9']),
     ('mediatype', [b'text/HTML', b';', b' charset', b'=', b'"UTF-8"']),
     ('datauri', [b'data:', b'text/plain', b';charset=us-ascii', b';base64', b',', b'SGVsbG8=']),
     ('datauri', [b'data:', b'text/css', b',', b'a%7Bcolor:', b'red%7D']),
@@ -82,7 +83,7 @@ PROBES = [
 #     affected: XML/SVG fail only on a NUL byte, HTML only through an embedded resource or a NUL byte, JSON (numbers are rewritten
 #     in place: 1.50e+3 -> 1500e+3) on any text that is not JSON.  Generators do not emit Bytes calls for html/xml/svg/json inputs that
 #     can make the minifier fail (the String and Minify entry points are still called on them; Bytes on js/css stays fully checked).
-KA_CAN_FAIL_HTML = re.compile(rb'\x00|<script|<svg|<math|\son[a-z]+\s*=|<[^>]*\bon[a-z]+\s*=', re.I)
+KA_CAN_FAIL_HTML = re.compile(rb'\x00|<script|<svg|<math|[\s"\'/<]on[^\s=>]*\s*=', re.I)   # any attribute whose name starts with "on" is JS
 # KB: the JS minifier needs time quadratic in the number of var statements of one scope (js/vars.go hoistVars; the 10000 cut-off
 #     only limits the length of a single declaration list).  Generators emit at most 3000 var statements per scope.
 KB_VAR = re.compile(rb'\bvar\b')
@@ -99,18 +100,22 @@ def json_ok(data):
         return False
 
 
-def excluded(api, lang, data):
-    tags = []
-    if api == 'Bytes':
-        if lang == 'json' and not json_ok(data):
-            tags.append('KA')
-        if lang in ('xml', 'svg') and b'\x00' in data:
-            tags.append('KA')
-        if lang == 'html' and KA_CAN_FAIL_HTML.search(data):
-            tags.append('KA')
+def doc_tags(lang, data):
+    """construct tags of known findings present in a document (computed once per document, not per call)"""
+    tags = set()
+    if lang == 'json' and not json_ok(data):
+        tags.add('KA')
+    if lang in ('xml', 'svg') and b'\x00' in data:
+        tags.add('KA')
+    if lang == 'html' and KA_CAN_FAIL_HTML.search(data):
+        tags.add('KA')
     if lang in ('js', 'html') and len(data) > 20000 and len(KB_VAR.findall(data)) > 3000:
-        tags.append('KB')
+        tags.add('KB')
     return tags
+
+
+def excluded(api, tags):
+    return [t for t in tags if t != 'KA' or api == 'Bytes']
 
 
 def render_seeds():
@@ -162,7 +167,7 @@ class Cases:
         self.seen = set()
         self.excluded = 0
 
-    def add(self, api, lang, opts='default', prec=0, data=b'', file=None, pre=b'', post=b'', depth=0, origin='', allow_known=False):
+    def add(self, api, lang, opts='default', prec=0, data=b'', file=None, pre=b'', post=b'', depth=0, origin='', allow_known=False, tags=None):
         if file is None:
             full = pre * depth + data + post * depth if depth and len(pre + post) * depth < 4000000 else None
             k = (api, lang, opts, prec, data, pre, post, depth)
@@ -172,10 +177,12 @@ class Cases:
         if k in self.seen:
             return None
         self.seen.add(k)
-        probe = full if full is not None else (data if file is None else open(file, 'rb').read())
-        if not allow_known and excluded(api, lang, probe):
-            self.excluded += 1
-            return None
+        if not allow_known:
+            if tags is None:
+                tags = doc_tags(lang, full if full is not None else (data if file is None else open(file, 'rb').read()))
+            if excluded(api, tags):
+                self.excluded += 1
+                return None
         c = dict(id=len(self.cases), api=api, lang=lang, opts=opts, prec=prec, origin=origin)
         if file is not None:
             c['file'] = file
@@ -209,16 +216,17 @@ def apis_for(lang):
 
 def add_product(cs, lang, data, origin, rnd, full, pre=b'', post=b'', depth=0, apis=None):
     """one document x every entry point x option extremes (full) or a seeded subset of the options (not full)"""
+    tags = doc_tags(lang, pre * depth + data + post * depth if len(pre + post) * depth < 4000000 else data)
     for api in (apis or apis_for(lang)):
         if lang == 'num':
             for p in (PRECS if full else [rnd.choice(PRECS), rnd.choice(PRECS)]):
-                cs.add(api, lang, prec=p, data=data, pre=pre, post=post, depth=depth, origin=origin)
+                cs.add(api, lang, prec=p, data=data, pre=pre, post=post, depth=depth, origin=origin, tags=tags)
         elif lang in ('mediatype', 'datauri'):
-            cs.add(api, lang, data=data, pre=pre, post=post, depth=depth, origin=origin)
+            cs.add(api, lang, data=data, pre=pre, post=post, depth=depth, origin=origin, tags=tags)
         else:
             os_ = OPTS[lang] if full else ['default', rnd.choice(OPTS[lang][1:])] if rnd.random() < 0.5 else [rnd.choice(OPTS[lang])]
             for o in os_:
-                cs.add(api, lang, opts=o, data=data, pre=pre, post=post, depth=depth, origin=origin)
+                cs.add(api, lang, opts=o, data=data, pre=pre, post=post, depth=depth, origin=origin, tags=tags)
 
 
 # ------------------------------------------------------------------------------------------- running the driver
@@ -329,7 +337,7 @@ def run(ctx):
         if quick and depth >= 10000 and rnd.random() < 0.5:
             continue
         full = (not quick and ops <= 1) or (quick and ops == 0)
-        if not quick and ops == 2 and rnd.random() < 0.55:
+        if not quick and ops == 2 and rnd.random() < 0.7:
             continue
         add_product(cs, lang, data, 'model:%s:%d:%s' % (lang, ops, lastop), rnd, full, pre, post, depth)
     ctx.coverage['model_calls'] = len(cs.cases)
@@ -371,7 +379,7 @@ def run(ctx):
         for _ in range(rnd.choice([0, 0, 1, 2])):
             m, op2 = c09.mutate(rnd, lang, m, pools[lang])
             op += '+' + op2
-        add_product(cs, lang, m[:300000], 'mut:' + op, rnd, False, apis=[rnd.choice(['Minify', 'Bytes', 'String']), 'Bytes'])
+        add_product(cs, lang, m[:100000], 'mut:' + op, rnd, False, apis=[rnd.choice(['Minify', 'Bytes', 'String']), 'Bytes'])
     for k in range(0 if only_pinned else (30 if quick else 400)):
         lang = LANGS[k % len(LANGS)]
         if big[lang]:
